@@ -546,6 +546,7 @@ def run_grid(ctx, cfg, case, label="gen"):
             ptols = [phys_tol(lo, hi) for lo, hi in dims]
             for name, rows in zip(("phys_lower", "phys_upper", "phys_centre"), phys):
                 cmp_floats(f"grid.{name}", rows, ans[name], ptols)
+    float_physical_grid(ctx, case, req, ans, result, res_priors, upper_exc, phys)  # phys: the lists read above, if they were
     # exact layer: the cells the theorems are about, against the floats of the implementation
     if cells_ok and "rat_cells" in ans and len(ans["rat_cells"]) == total:
         bad = None
@@ -597,6 +598,8 @@ def run_grid(ctx, cfg, case, label="gen"):
                 if i != want or type(got).__name__ != "UniformPrior":
                     ctx.disagree("C16.grid.place_dim", case, [type(got).__name__, want], ["dim", i])
 
+    if len(samples) == len(calls) == ans["count"]:
+        cell_compositions(ctx, case, model, grid_ids, key_path, samples)
     # ---- oracle: the property sentence on the real outputs
     if any(k != "UniformPrior" for k in kinds):
         ctx.hit("grid:non-uniform-grid-prior")
@@ -756,6 +759,243 @@ def grid_oracle(ctx, cfg, case, n, d, model, places, grid_ids, dims, calls, resu
 
 
 # ---------------------------------------------------------------------------------------------
+# the composition of a cell (model growth): mapper_from_partial_prior_arguments on the Comp model
+
+
+def cell_compositions(ctx, case, model, grid_ids, key_path, samples):
+    """every sampled cell's model against `cellComp` (the original tree with the grid priors' ids renamed to the
+    cell's new priors): places and ids in parameter order, prior count, the instance built from a vector; the
+    hypotheses of the theorems (new ids distinct, not ids of the model, not shared between cells) on the real ids"""
+    import extract_comp as X
+    total = len(samples)
+    picks = sorted({0, total - 1, total // 2, total // 3, (2 * total) // 3} & set(range(total)))
+    try:
+        comp = X.node_of(model)
+        own_ids = sorted({int(p.id) for _, p in model.path_priors_tuples})
+        cells, impl = [], []
+        fresh_of = {}
+        for k in range(total):
+            fresh_of[k] = [int(prior_at(samples[k].model, key_path[pid]).id) for pid in grid_ids]
+        for k in picks:
+            m = samples[k].model
+            n_par = int(m.prior_count)
+            v = [float(3 * j + 1) + 0.25 for j in range(n_par)]
+            inst = m.instance_from_vector(v, ignore_prior_limits=True)
+            impl.append({
+                "paths": [[str(x) for x in path] for path, _ in m.path_priors_tuples],
+                "path_ids": [int(p.id) for _, p in m.path_priors_tuples],
+                "ids": [int(p.id) for p in m.priors_ordered_by_id],
+                "count": n_par,
+                "inst": X.canon_inst(X.inst_of(inst)),
+            })
+            cells.append({"job": k, "fresh": fresh_of[k], "v": [f2h(x) for x in v]})
+    except Exception as e:  # noqa
+        ctx.disagree("C16.cellcomp.unreadable", case, f"{type(e).__name__}: {str(e)[:200]}", None)
+        return
+    all_fresh = [i for k in range(total) for i in fresh_of[k]]
+    if len(set(all_fresh)) != len(all_fresh) or set(all_fresh) & set(own_ids):
+        ctx.disagree("C16.cellcomp.fresh_ids", case, {"model_ids": own_ids, "cell_ids": all_fresh[:24]},
+                     "new priors of the cells have ids of their own")
+        return
+    ans = ctx.lean.ask({"p": "C16", "q": "cellcomp", "comp": comp, "grid_ids": grid_ids, "cells": cells,
+                        "base": fresh_of[0][0] if fresh_of.get(0) else 0})
+    if "driver_error" in ans:
+        ctx.disagree("C16.driver", case, None, _short(ans))
+        return
+    if ans["count"] != int(model.prior_count):
+        ctx.disagree("C16.cellcomp.model_count", case, int(model.prior_count), ans["count"])
+    sequential = True
+    for k, im, mo in zip(picks, impl, ans["cells"]):
+        for key in ("paths", "path_ids", "ids", "count"):
+            if im[key] != mo[key]:
+                ctx.disagree(f"C16.cellcomp.{key}", case, {"job": k, "impl": _short(im[key])}, _short(mo[key]))
+                return
+        diff = X.inst_diff(im["inst"], X.canon_inst(mo["inst"]), 0)
+        if diff:
+            ctx.disagree("C16.cellcomp.instance", case, {"job": k, "diff": _short(diff)}, _short(mo["inst"]))
+            return
+        sequential = sequential and mo["sequential"] == fresh_of[k]
+    ctx.hit("comp:cells-compared")
+    # the allocation of the new ids (pinned commit: base + job * d + dimension) is an implementation detail
+    ctx.hit("comp:fresh-ids-sequential" if sequential else "comp:fresh-ids-not-sequential")
+    if any(len(set(im["path_ids"])) < len(im["path_ids"]) for im in impl):
+        ctx.hit("comp:tied-places")
+    if any(im["path_ids"] != sorted(im["path_ids"]) for im in impl):
+        ctx.hit("comp:unsorted?")
+
+
+# ---------------------------------------------------------------------------------------------
+# float-level physical limits (model growth): Prior.value_for as property C02 models it, bit for bit
+
+
+_UNIT_PRIOR = []
+
+
+def quantile_trip(u):
+    """q = ndtr(ndtri(u)) as the real code performs it: for UniformPrior(0, 1) message.value_for(u) = q * 1 + 0"""
+    if not _UNIT_PRIOR:
+        _UNIT_PRIOR.append(af.UniformPrior(lower_limit=0.0, upper_limit=1.0))
+    return float(_UNIT_PRIOR[0].message.value_for(float(u)))
+
+
+def trip_table(ctx, case, units):
+    """[[u, q]] for the given unit values (hex); the libm part of value_for, measured, within 4 * 2**-52 of u"""
+    table = []
+    for h in sorted(set(units)):
+        u = h2f(h)
+        try:
+            q = quantile_trip(u)
+        except Exception as e:  # noqa
+            ctx.hit("phys:quantile-trip-raised:" + type(e).__name__)
+            continue
+        if not abs(q - u) <= 4 * 2.0 ** -52:  # measured: <= 2**-52 for every k/n, (k+1/2)/n with n <= 4000
+            ctx.disagree("C16.phys.quantile_trip", case, {"u": u, "q": q}, "ndtr(ndtri(u)) within 4 * 2**-52 of u")
+        table.append([h, f2h(q)])
+    return table
+
+
+def _is_limit_exc(e):
+    return type(e).__name__ == "PriorLimitException"
+
+
+def fphys_tol(lo, hi) -> Fraction:
+    """a float-equivalent rewrite of value_for (other rounding mode / no rounding, other operation order, exact
+    quantile round trip) stays within: one unit of the decimal place value_for rounds to + the measured round-trip
+    error times the width + a few ulp of the larger limit. (1000 times tighter than `phys_tol`, which it replaces
+    wherever the float-level model has a value.)"""
+    w = float(hi) - float(lo)
+    places = 14
+    while w < 1.0 and places < 323:
+        w *= 10.0
+        places += 1
+    return Fraction(1, 10 ** places) + (F(hi) - F(lo)) * Fraction(4, 2 ** 52) + grid_tol(lo, hi)
+
+
+def _same_or_close(impl, model_value, tols):
+    """'bit-exact' | 'within-rounding' | None for rows of per-dimension hex floats"""
+    if impl == model_value:
+        return "bit-exact"
+    if isinstance(impl, list) and isinstance(model_value, list) and len(impl) == len(model_value) and all(
+            len(a) == len(b) and all(abs(F(h2f(x)) - F(h2f(y))) <= tols[i] for i, (x, y) in enumerate(zip(a, b)))
+            for a, b in zip(impl, model_value)):
+        return "within-rounding"
+    return None
+
+
+def float_physical_grid(ctx, case, req, ans, result, res_priors, upper_exc, phys=None):
+    """GridSearchResult.physical_{lower_limits,upper_limits,centres}_lists against the float-level model
+    (gate, exact rounding, clamp of UniformPrior.value_for on the measured quantile round trip): identical bits"""
+    if upper_exc is not None or any(type(p).__name__ != "UniformPrior" for p in res_priors):
+        return
+    keys = (("lower", "lower_limits_lists", "unit"), ("upper", "upper_limits_lists", "upper_unit"),
+            ("centre", "centres_lists", "centre_unit"))
+    try:
+        for _, attr, mk in keys:
+            if [[f2h(float(v)) for v in row] for row in getattr(result, attr)] != ans[mk]:
+                ctx.hit("phys:grid-skipped-unit-lists-differ-within-rounding")
+                return
+    except Exception:  # noqa
+        return
+    table = trip_table(ctx, case, [h for _, _, mk in keys for row in ans[mk] for h in row])
+    tols = [fphys_tol(float(p.lower_limit), float(p.upper_limit)) for p in res_priors]
+    req2 = dict(req, trip=table, rat=False)
+    req2.pop("places", None)
+    ans2 = ctx.lean.ask(req2)
+    if "driver_error" in ans2 or "fphys_lower" not in ans2:
+        ctx.disagree("C16.driver", case, None, _short(ans2))
+        return
+    for name, _, _ in keys:
+        model_rows = ans2["fphys_" + name]
+        model_value = "limit" if any(v == "limit" for row in model_rows for v in row) else model_rows
+        attr = {"lower": "physical_lower_limits_lists", "upper": "physical_upper_limits_lists",
+                "centre": "physical_centres_lists"}[name]
+        try:
+            rows = phys[("lower", "upper", "centre").index(name)] if phys is not None else getattr(result, attr)
+            impl = [[f2h(float(v)) for v in row] for row in rows]
+        except Exception as e:  # noqa
+            impl = "limit" if _is_limit_exc(e) else "raised " + type(e).__name__
+        how = _same_or_close(impl, model_value, tols)
+        if how is not None:
+            ctx.hit(f"phys:grid-{how}" if impl != "limit" else "phys:grid-limit-exception-predicted")
+        else:
+            ctx.disagree(f"C16.grid.fphys_{name}", case, _short(impl), _short(model_value))
+
+
+def float_physical_sens(ctx, case, req, ans, entries, d, raised=None):
+    """Sensitivity: value of every perturbation and limits of every cell prior (value_for of the clamped unit
+    limits, then with_limits) against the float-level model: identical bits; `raised` = the exception of run()"""
+    table = trip_table(ctx, case, [h for row in ans["cells"] for c in row for h in c[:3]])
+    ans2 = ctx.lean.ask(dict(req, trip=table, rat=False))
+    if "driver_error" in ans2 or "fphys_cells" not in ans2:
+        ctx.disagree("C16.driver", case, None, _short(ans2))
+        return
+    cells = ans2["fphys_cells"]
+    model_raises = any(c[0] == "limit" or c[1] is None for row in cells for c in row)
+    if raised is not None:
+        if _is_limit_exc(raised) and model_raises:
+            ctx.hit("phys:sens-limit-exception-predicted")
+        else:
+            ctx.disagree("C16.sens.fphys_raises", case, "raised " + type(raised).__name__,
+                         "limit" if model_raises else "model has values")
+        return
+    if model_raises:
+        ctx.disagree("C16.sens.fphys_raises", case, "ran", "limit")
+        return
+    if len(cells) != len(entries):
+        return  # count clause reports it
+    tols = [fphys_tol(h2f(lo), h2f(hi)) for lo, hi in req["dims"]]
+    worst = "bit-exact"
+    for k, (rec, centre, lims) in enumerate(entries):
+        impl = [[f2h(centre[i]), f2h(lims[i][0]), f2h(lims[i][1])] for i in range(d)]
+        how = _same_or_close(list(zip(*impl)), list(zip(*[[c[0], c[1][0], c[1][1]] for c in cells[k]])), tols) \
+            if len(cells[k]) == d else None
+        if how is None:
+            ctx.disagree("C16.sens.fphys_cells", case, {"entry": k, "impl": _short(impl)}, _short(cells[k]))
+            return
+        if how != "bit-exact":
+            worst = how
+    ctx.hit("phys:sens-" + worst)
+    return ans2
+
+
+def sens_generation(ctx, case, sens, ans, ans2, dims_hex):
+    """the generators of Sensitivity read directly: `_lists` (unit vectors), `_physical_values`, `_labels` of every
+    job in job order against the model (unit centres, value_for of them, label = name_value pairs in id order with
+    Python's repr of the model's doubles)"""
+    try:
+        lists = [[f2h(float(v)) for v in row] for row in sens._lists]
+        values = [[f2h(float(v)) for v in row] for row in sens._physical_values]
+        labels = list(sens._labels)
+    except AttributeError:
+        ctx.hit("sens:generators-not-readable")
+        return
+    except Exception as e:  # noqa
+        ctx.disagree("C16.sens.generators", case, f"raised {type(e).__name__}", "model has values")
+        return
+    m_lists = [[c[0] for c in row] for row in ans["cells"]]
+    m_values = [[c[0] for c in row] for row in ans2["fphys_cells"]]
+    m_labels = ["_".join(f"{name}_{h2f(v)!r}" for name, v in row) for row in ans2["labels"]]
+    tols = [fphys_tol(h2f(lo), h2f(hi)) for lo, hi in dims_hex]
+    if lists != m_lists:
+        ctx.disagree("C16.sens.unit_lists", case, _short(lists), _short(m_lists))
+    elif values == m_values and labels == m_labels:
+        ctx.hit("sens:lists-values-labels-bit-exact")
+    elif _same_or_close(values, m_values, tols) is None:
+        ctx.disagree("C16.sens.physical_values", case, _short(values), _short(m_values))
+    elif values == m_values:
+        ctx.disagree("C16.sens.labels", case, _short(labels), _short(m_labels))
+    else:
+        # a float-equivalent rewrite of value_for: the labels are compared as names + values within that rounding
+        ok = len(labels) == len(m_labels)
+        for lab, row, vrow in zip(labels, ans2["labels"], values):
+            ok = ok and lab == "_".join(f"{name}_{h2f(v)!r}" for (name, _), v in zip(row, vrow))
+        if ok:
+            ctx.hit("sens:lists-values-labels-within-rounding")
+        else:
+            ctx.disagree("C16.sens.labels", case, _short(labels), _short(m_labels))
+
+
+# ---------------------------------------------------------------------------------------------
 # sensitivity mapping
 
 SIM = []
@@ -815,6 +1055,12 @@ def run_sens(ctx, cfg, case, label="gen"):
     try:
         result = sens.run()
     except Exception as e:
+        # the float-level model predicts the limit exception (value_for of a unit limit outside the prior's limits)
+        req0 = {"p": "C16", "q": "sens", "cfg": cfg, "steps": per_dim, "dims": [[f2h(lo), f2h(hi)] for lo, hi in dims],
+                "scale": f2h(float(scale)), "arrivals": [], "names_id": names_id, "names_attr": names_attr}
+        ans0 = ctx.lean.ask(req0)
+        if "driver_error" not in ans0:
+            float_physical_sens(ctx, case, req0, ans0, [], d, raised=e)
         end = unit_end_defect(by_id)
         if end is not None and type(e).__name__ == "PriorLimitException":
             ctx.fail("C16-prior-unit-end-outside-limits", f"Sensitivity.run raised {type(e).__name__}: "
@@ -888,6 +1134,9 @@ def run_sens(ctx, cfg, case, label="gen"):
                 break
         if bad:
             ctx.disagree("C16.sens.cells", case, bad[:5], bad[5])
+        ans2 = float_physical_sens(ctx, case, req, ans, entries, d)
+        if ans2 is not None:
+            sens_generation(ctx, case, sens, ans, ans2, req["dims"])
         # job number of the fit behind each entry (the s-th performed job has number arrivals[s])
         cmp("sens.order", [arrivals[int(rec["seq"])] for rec, _, _ in entries], ans["order"])
     # results.csv
@@ -1072,6 +1321,52 @@ def sweep_shape(ctx, cfg, cap):
                  {"kind": "shape", "pairs": wrong[:10]}, {"first": wrong[:10]})
 
 
+def sweep_shape_any(ctx, cfg, cap, big):
+    """GridSearchResult built from ANY number of unit lists (not only full grids), d = 1..6: shape, side_length,
+    whether GridList.native can reshape a per-cell list, first reported upper unit limit - against sideRound /
+    nativeOk / upperUnit; near-power totals n^d - 1, n^d, n^d + 1 up to `big`"""
+    from autofit.non_linear.grid.grid_list import GridList
+    pairs = [(total, d) for d in range(1, 7) for total in range(1, cap + 1)]
+    for d in range(2, 7):
+        n = 2
+        while n ** d <= big:
+            if n ** d > cap and (n % 7 == 3 or (n + 1) ** d > big):
+                pairs += [(n ** d - 1, d), (n ** d, d), (n ** d + 1, d)]
+            n += 1
+    got_side, got_native, got_upper = [], [], []
+    for total, d in pairs:
+        r = GridSearchResult(None, [[0.0] * d] * total, [])
+        shape = [int(x) for x in r.shape]
+        got_side.append(shape[0] if shape == [int(r.side_length)] * d else -1)
+        try:
+            GridList(list(range(total)), r.shape).native
+            got_native.append(True)
+        except ValueError:
+            got_native.append(False)
+        got_upper.append(f2h(float(r.upper_limits_lists[0][0])) if total <= 2000 else None)
+    ans = ctx.lean.ask({"p": "C16", "q": "shape", "cfg": cfg, "pairs": [[t, d] for t, d in pairs]})
+    ctx.case({"sweep": "shape_any", "cap": cap, "big": big}, nontrivial=True)
+    if "driver_error" in ans:
+        ctx.disagree("C16.driver", {"kind": "shape_any", "cap": cap, "big": big}, None, _short(ans))
+        return
+    for name, got, model in (("side", got_side, ans.get("sides")), ("native_ok", got_native, ans.get("native_ok")),
+                             ("upper_first", got_upper, [u if g is not None else None for u, g in zip(ans.get("upper_first", []), got_upper)])):
+        if got != model:
+            bad = [i for i in range(len(pairs)) if model is None or i >= len(model) or got[i] != model[i]][:5]
+            ctx.disagree(f"C16.sweep.shape_any.{name}", {"kind": "shape_any", "cap": cap, "big": big, "pairs": [pairs[i] for i in bad]},
+                         [got[i] for i in bad], [model[i] for i in bad] if model else None)
+    ctx.notes["shapes_of_arbitrary_totals_checked"] = len(pairs)
+    # the property speaks about full grids only: n^d results report (n,)*d and can be reshaped
+    for (total, d), side, ok in zip(pairs, got_side, got_native):
+        n = round(total ** (1.0 / d))
+        n = next((m for m in (n - 1, n, n + 1) if m >= 1 and m ** d == total), None)
+        if n is not None and (side != n or not ok):
+            ctx.fail("C16-shape-root", f"a result of {n}^{d} cells reports side {side}" + ("" if ok else " and native cannot reshape it"),
+                     {"kind": "shape_any", "cap": cap, "big": big, "pairs": [[total, d]]}, {"total": total, "d": d})
+            break
+    ctx.hit("shape-any:non-powers-compared")
+
+
 # ---------------------------------------------------------------------------------------------
 
 
@@ -1087,6 +1382,8 @@ def one_case(ctx, cfg, case, label="gen"):
         sweep_steps(ctx, cfg, max(case["ns"]))
     elif kind == "shape":
         sweep_shape(ctx, cfg, max(n ** d for n, d in case["pairs"]))
+    elif kind == "shape_any":
+        sweep_shape_any(ctx, cfg, case.get("cap", 300), case.get("big", 200000))
 
 
 def setup(ctx):
@@ -1126,6 +1423,8 @@ def run(ctx):
     lap("sweep_steps")
     sweep_shape(ctx, cfg, 20000 if quick else 200000)
     lap("sweep_shape")
+    sweep_shape_any(ctx, cfg, 300 if quick else 800, 200000 if quick else 1000000)
+    lap("sweep_shape_any")
     for _ in range(ctx.n(300, 3000)):
         run_builder(ctx, cfg, gen_builder_case(ctx.rng))
     lap("builder")
